@@ -132,3 +132,49 @@ theorem InE.log_arg_small {vls Dp d eps nu rhol rhos Cv : ℝ} (h : InE vls Dp d
   have hc1' : eps / (3.7 * Dp) ≤ 0.0002 := by
     rw [h.eps_eq, div_le_iff₀ (by have := h.Dp_pos; positivity)]; have := h.Dp_lo; nlinarith
   linarith
+
+/-- the carrier-liquid gradient falls strictly with pipe diameter on E: the friction factor falls (both terms of the logarithm's argument shrink)
+and so does 1/Dp -/
+theorem il_strictAnti_Dp {vls D1 D2 d eps nu rhol rhos Cv : ℝ} (h1 : InE vls D1 d eps nu rhol rhos Cv) (h2 : InE vls D2 d eps nu rhol rhos Cv)
+    (h12 : D1 < D2) :
+    homogeneous.fluid_head_loss vls D2 eps nu rhol < homogeneous.fluid_head_loss vls D1 eps nu rhol := by
+  have hn := h1.nu_pos; have hv := h1.vls_pos
+  have hD1 := h1.Dp_pos; have hD2 := h2.Dp_pos
+  have t1 : 2320 < homogeneous.pipe_reynolds_number vls D1 nu := lt_of_lt_of_le (by norm_num) h1.reynolds_ge
+  have t2 : 2320 < homogeneous.pipe_reynolds_number vls D2 nu := lt_of_lt_of_le (by norm_num) h2.reynolds_ge
+  unfold homogeneous.fluid_head_loss
+  simp only [Transc.npow, sci_two]
+  rw [swamee_jain_as_Lv vls D1 eps nu hv hD1 hn t1, swamee_jain_as_Lv vls D2 eps nu hv hD2 hn t2]
+  have he := h1.eps_pos
+  have hs := Real.rpow_pos_of_pos hv (-(0.9:ℝ))
+  -- the argument of the logarithm shrinks
+  have hc : eps / (3.7 * D2) < eps / (3.7 * D1) := div_lt_div_of_pos_left he (by positivity) (by linarith)
+  have hk : 5.75 * (nu / D2) ^ (0.9:ℝ) < 5.75 * (nu / D1) ^ (0.9:ℝ) := by
+    have : nu / D2 < nu / D1 := div_lt_div_of_pos_left hn hD1 h12
+    have := Real.rpow_lt_rpow (by positivity) this (by norm_num : (0:ℝ) < 0.9)
+    linarith
+  have hx2 : 0 < eps / (3.7 * D2) + 5.75 * (nu / D2) ^ (0.9:ℝ) * vls ^ (-(0.9:ℝ)) := by
+    have := Real.rpow_pos_of_pos (div_pos hn hD2) (0.9:ℝ); positivity
+  have hlt : eps / (3.7 * D2) + 5.75 * (nu / D2) ^ (0.9:ℝ) * vls ^ (-(0.9:ℝ)) < eps / (3.7 * D1) + 5.75 * (nu / D1) ^ (0.9:ℝ) * vls ^ (-(0.9:ℝ)) := by
+    have := mul_lt_mul_of_pos_right hk hs
+    linarith
+  have hL : Lv (eps / (3.7 * D1)) (5.75 * (nu / D1) ^ (0.9:ℝ)) vls < Lv (eps / (3.7 * D2)) (5.75 * (nu / D2) ^ (0.9:ℝ)) vls := by
+    unfold Lv
+    have := Real.log_lt_log hx2 hlt
+    linarith
+  have hx1 : 0 < eps / (3.7 * D1) + 5.75 * (nu / D1) ^ (0.9:ℝ) * vls ^ (-(0.9:ℝ)) := lt_trans hx2 hlt
+  have hL1 : 0 < Lv (eps / (3.7 * D1)) (5.75 * (nu / D1) ^ (0.9:ℝ)) vls := by
+    have := Lv_pos _ _ vls hx1 h1.log_arg_small; linarith
+  set L1 := Lv (eps / (3.7 * D1)) (5.75 * (nu / D1) ^ (0.9:ℝ)) vls
+  set L2 := Lv (eps / (3.7 * D2)) (5.75 * (nu / D2) ^ (0.9:ℝ)) vls
+  have hL2 : 0 < L2 := lt_trans hL1 hL
+  have hg : (0:ℝ) < Cst.gravity := by unfold Cst.gravity; norm_num
+  rw [div_lt_div_iff₀ (by positivity) (by positivity)]
+  have hsq : L1 ^ 2 < L2 ^ 2 := by nlinarith
+  have hv2 : 0 < vls ^ 2 := by positivity
+  have e1 : 1.325 / L2 ^ 2 * vls ^ 2 * (2 * (Cst.gravity : ℝ) * D1) = (1.325 * vls ^ 2 * 2 * (Cst.gravity : ℝ)) * (D1 / L2 ^ 2) := by field_simp
+  have e2 : 1.325 / L1 ^ 2 * vls ^ 2 * (2 * (Cst.gravity : ℝ) * D2) = (1.325 * vls ^ 2 * 2 * (Cst.gravity : ℝ)) * (D2 / L1 ^ 2) := by field_simp
+  rw [e1, e2]
+  apply mul_lt_mul_of_pos_left _ (by positivity)
+  rw [div_lt_div_iff₀ (by positivity) (by positivity)]
+  nlinarith
